@@ -265,7 +265,84 @@ class T:
 _match0 = match
 
 
+def expand(t):
+    """one step of on-demand normalisation of a term that failed to match a template: a directly called closure is
+    replaced by its body, a call to a private helper with a plain body (no loop, no unknown, not recursive) by that
+    body, `array.map(f)` over an array literal by the array of applications, and projections of tuple/array literals
+    are taken.  Returns None when nothing applies."""
+    from . import canon
+    prog = mir.CURRENT
+    if prog is None:
+        return None
+    t = strip(t)
+    if not isinstance(t, tuple) or not t:
+        return None
+    if t[0] == "field" and isinstance(t[1], tuple):
+        inner = strip(t[1])
+        if isinstance(inner, tuple) and inner and inner[0] == "agg" and inner[1] in ("tuple", "array") and str(t[2]).isdigit() \
+                and int(t[2]) < len(inner[4]):
+            return inner[4][int(t[2])]
+        e = expand(inner)
+        if e is not None:
+            return ("field", e) + tuple(t[2:])
+        return None
+    if t[0] == "index" and isinstance(t[1], tuple):
+        inner, k = strip(t[1]), strip(t[2])
+        if isinstance(inner, tuple) and inner and inner[0] == "agg" and inner[1] == "array" and isinstance(k, tuple) and k[0] == "const" \
+                and str(k[2]).isdigit() and int(k[2]) < len(inner[4]):
+            return inner[4][int(k[2])]
+        e = expand(inner)
+        if e is not None:
+            return ("index", e) + tuple(t[2:])
+        return None
+    if t[0] != "call":
+        return None
+    c, a = t[1], t[2]
+    if c.name in ("call", "call_mut", "call_once") and len(a) == 2:
+        clo, tup = canon._peel(a[0]), strip(a[1])
+        if isinstance(clo, tuple) and clo and clo[0] == "agg" and clo[1] == "closure" and isinstance(tup, tuple) and tup and \
+                tup[0] == "agg" and tup[1] == "tuple" and len(tup[4]) <= 2:
+            return canon.apply_closure(prog, clo, *tup[4])
+        return None
+    if c.name == "map" and len(a) == 2 and "array" in (c.def_ or ""):
+        arr, clo = strip(a[0]), canon._peel(a[1])
+        if isinstance(arr, tuple) and arr and arr[0] == "agg" and arr[1] == "array" and isinstance(clo, tuple) and clo and clo[0] == "agg" \
+                and clo[1] == "closure":
+            els = [canon.apply_closure(prog, clo, x) for x in arr[4]]
+            if all(e is not None for e in els):
+                return arr[:4] + (tuple(els),) + tuple(arr[5:])
+        return None
+    if c.local or getattr(c, "res_local", False):
+        hs = [h for h in prog.resolve(c) if "{closure" not in h.npath]
+        if len(hs) == 1 and hs[0].terms.ret is not None:
+            r = hs[0].terms.ret
+            if not canon.has_unknown(r) and not canon._calls(r, hs[0]):
+                return canon.subst(r, {i + 1: x for i, x in enumerate(a)})
+    return None
+
+
+_EXPANDING = [0]
+
+
 def match(pat, t, extra_strip=()):  # noqa: F811  (extends the matcher above)
+    r = _match1(pat, t, extra_strip)
+    if r is None or isinstance(pat, (ANY, Contains)) or _EXPANDING[0] >= 4:
+        return r
+    _EXPANDING[0] += 1
+    try:
+        e = expand(strip(t, extra_strip))
+        if e is not None and _match1(pat, e, extra_strip) is None:
+            return None
+        if e is not None:
+            r2 = match(pat, e, extra_strip)
+            if r2 is None:
+                return None
+    finally:
+        _EXPANDING[0] -= 1
+    return r
+
+
+def _match1(pat, t, extra_strip=()):
     if isinstance(pat, VF):
         t = strip(t, extra_strip)
         want = ("as", ("param", pat.i), pat.variant)
